@@ -23,6 +23,9 @@ def gen(rng, sid, nclients, nops, mode):
             if mode == "getput" or (mode == "mixed" and w < 0.3):
                 val[0] += 1
                 ops.append({"op": "getput", "c": path, "d": d, "k": k, "v": dmaplib.hx(str(val[0]))})
+            elif mode == "float" and w < 0.45 and not path.startswith(("raw", "pipe")):
+                # IncrByFloat with an integral amount, mixed with Incr/Decr on the same key: one counter, one lock
+                ops.append({"op": "incrbyfloat", "c": path, "d": d, "k": k, "f": float(rng.choice([-3, -2, -1, 1, 2, 3, 4, 5]))})
             elif w < 0.7:
                 ops.append({"op": "incr", "c": path, "d": d, "k": k, "delta": rng.randrange(1, 9)})
             else:
@@ -44,6 +47,12 @@ def parse_int(hexs):
         return None
 
 
+def delta_of(op):
+    if op["op"] == "incrbyfloat":
+        return int(op["f"])
+    return op["delta"] if op["op"] == "incr" else -op["delta"]
+
+
 def judge(sc, r):
     """closed-form predicates; returns None or message"""
     ops = conclib.flatten(sc, r)
@@ -51,15 +60,11 @@ def judge(sc, r):
         if ob.get("r") != "ok":
             return "client %d: %s returned %s" % (ci, op["op"], ob.get("r"))
     fin = r["final"][0]
-    if sc["_mode"] == "incr":
-        total = (sc["_init"] or 0) + sum(op["delta"] if op["op"] == "incr" else -op["delta"] for _, op, _ in ops)
+    if sc["_mode"] in ("incr", "float"):
+        total = (sc["_init"] or 0) + sum(delta_of(op) for _, op, _ in ops)
         got = parse_int(fin.get("val", "")) if fin.get("r") == "ok" else None
         if got != total:
             return "final value %s, initial %s plus the sum of the acknowledged deltas is %d (lost update)" % (got, sc["_init"], total)
-        rets = sorted(ob["n"] for _, _, ob in ops)
-        if len(set(rets)) != len(rets) and all(op["delta"] != 0 for _, op, _ in ops):
-            # equal return values are possible only if deltas cancel; check via the checker, not here
-            pass
     if sc["_mode"] == "getput":
         olds = [ob.get("old") for _, _, ob in ops]
         written = [op["v"] for _, op, _ in ops]
@@ -84,6 +89,10 @@ def to_events(sc, r):
         if op["op"] in ("incr", "decr"):
             d = op["delta"] if op["op"] == "incr" else -op["delta"]
             evs.append(conclib.ev(ob["n0"], ob["n1"], "CIncr %s" % cZ(d), "CInt %s" % cZ(ob["n"])))
+        elif op["op"] == "incrbyfloat":
+            if ob.get("f") != int(ob.get("f", 0.5)):
+                return None
+            evs.append(conclib.ev(ob["n0"], ob["n1"], "CIncr %s" % cZ(int(op["f"])), "CInt %s" % cZ(int(ob["f"]))))
         elif op["op"] == "getput":
             old = parse_int(ob["old"]) if ob.get("old") is not None else None
             if ob.get("old") is not None and old is None:
@@ -112,7 +121,7 @@ def run(res):
         scs = []
         for i in range(rounds):
             rng = vlib.rng_for(res.seed, PID, ci, i)
-            mode = ["incr", "getput", "mixed"][i % 3]
+            mode = ["incr", "getput", "mixed", "float"][i % 4]
             scs.append(gen(rng, sid, rng.choice([2, 3, 4]), rng.randrange(2, 5), mode))
             sid += 1
         groups.append((cfg, scs))
@@ -179,14 +188,14 @@ def run(res):
     res.coverage.update({
         "evaluations": len(hists) + len(failures), "distinct_nontrivial": multi,
         "rule": "2-4 concurrent callers x 2-4 operations on one key, callers assigned to 7 entry points (embedded on owner / non-owner / backup owner, cluster client, raw "
-                "DM.INCR/DM.GETPUT to owner / non-owner, pipeline), three modes: Incr/Decr only (final value = initial + sum of deltas), GetPut only (single chain), mixed; "
+                "DM.INCR/DM.GETPUT to owner / non-owner, pipeline), four modes: Incr/Decr only (final value = initial + sum of deltas), GetPut only (single chain), mixed, and Incr/Decr mixed with IncrByFloat of integral amounts on the same key (same sum); "
                 "clusters (3,2),(3,1); every history incl. the final Get is judged by the linearizability checker with the counter/swap specification inside Coq; "
                 "non-trivial = callers entered through at least two different entry points",
         "histories": len(hists), "nonlinearizable": len(nonlin), "inconclusive": sum(1 for v in verdict.values() if v is None),
         "predicate_failures": len(failures), "coq_eval_seconds": round(secs, 1), "traces_validated_against_impl": len(hists),
         "samples": [{"history": hists[0][2]}] if hists else [],
     })
-    res.assumptions += ["IncrByFloat is exercised by the C15 grid only (float text formatting is an oracle)"]
+    res.assumptions += ["IncrByFloat is exercised with integral amounts only (mixed with Incr/Decr on one key); non-integral amounts by the C15 grid (float text formatting is an oracle)"]
 
 
 def replay(res, path):
